@@ -15,6 +15,7 @@ import (
 	"strconv"
 	"strings"
 	"sync"
+	"sync/atomic"
 	"testing"
 	"time"
 
@@ -116,7 +117,8 @@ func replaceLine(noteBytes []byte, line int, with string) []byte {
 // directory, wdir the witness's (with its mirror subdirectory, which must
 // survive: the binary opened it at start-up). It returns the tree head
 // timestamp it used.
-func (m *healthMaterial) realise(ldir, wdir string, c healthCond) int64 {
+func (m *healthMaterial) realise(ldir, wdir string, c healthCond, last *healthCond) int64 {
+	defer func() { *last = c }()
 	now := time.Now()
 	ts := now.UnixMilli()
 	if c.Lage == "stale" {
@@ -177,10 +179,21 @@ func (m *healthMaterial) realise(ldir, wdir string, c healthCond) int64 {
 		WriteFile(filepath.Join(ldir, "checkpoint"), cp)
 	}
 
-	// ---- the witness
-	clearDir(wdir, "mirror")
+	// ---- the witness (left as it is when the previous state had the same)
 	mdir := filepath.Join(wdir, "mirror")
-	clearDir(mdir)
+	if last.Wkeys != c.Wkeys || last.Wcp != c.Wcp {
+		m.realiseWitness(wdir, c)
+	}
+	// ---- the mirror
+	if last.Mkeys == c.Mkeys && last.Mcp == c.Mcp && last.Medge == c.Medge && last.Mpend == c.Mpend {
+		return ts
+	}
+	m.realiseMirror(mdir, c)
+	return ts
+}
+
+func (m *healthMaterial) realiseWitness(wdir string, c healthCond) {
+	clearDir(wdir, "mirror")
 	switch c.Wkeys {
 	case "ok":
 		WriteFile(filepath.Join(wdir, "witness.v0.json"), VerifierKeysJSON("witness.health.test", m.witness.VKey))
@@ -211,8 +224,10 @@ func (m *healthMaterial) realise(ldir, wdir string, c healthCond) int64 {
 	}
 	WriteFile(filepath.Join(wdir, wdirA, "checkpoint"), wcp)
 	WriteFile(filepath.Join(wdir, OriginHash(originB), "checkpoint"), SignNote(originB, pendingN, m.pRoot, m.witness))
+}
 
-	// ---- the mirror
+func (m *healthMaterial) realiseMirror(mdir string, c healthCond) {
+	clearDir(mdir)
 	switch c.Mkeys {
 	case "ok":
 		WriteFile(filepath.Join(mdir, "mirror.v0.json"), VerifierKeysJSON("mirror.health.test", m.mirror.VKey))
@@ -260,8 +275,9 @@ func (m *healthMaterial) realise(ldir, wdir string, c healthCond) int64 {
 	// a second mirrored origin that is always in order
 	writeTree(filepath.Join(mdir, OriginHash(originB)), m.behind)
 	WriteFile(filepath.Join(mdir, OriginHash(originB), "checkpoint"), SignNote(originB, m.behind.N, m.behind.Root, m.mirror))
-	return ts
 }
+
+var tRealise, tQuery atomic.Int64
 
 // names reports whether a line of the answer that reports a failure contains
 // one of the identifiers.
@@ -343,6 +359,9 @@ func TestHealth(t *testing.T) {
 		sel = append(sel, rest[:max-len(sel)]...)
 	}
 	sort.Ints(sel)
+	if only := onlyCases(len(plan)); len(only) > 0 {
+		sel = only
+	}
 
 	mat := newHealthMaterial()
 	out.Emit(map[string]any{"ev": "Setup", "n": len(sel), "seed": seed, "tier": tier,
@@ -367,6 +386,7 @@ func TestHealth(t *testing.T) {
 			ldir, wdir := filepath.Join(base, "log"), filepath.Join(base, "witness")
 			check(os.MkdirAll(ldir, 0o755))
 			check(os.MkdirAll(filepath.Join(wdir, "mirror"), 0o755))
+			var last healthCond
 			for combo := 0; combo < 4; combo++ {
 				ls, ws := combo&1 == 1, combo&2 == 2
 				var mine []int
@@ -382,7 +402,13 @@ func TestHealth(t *testing.T) {
 				if len(mine) == 0 {
 					continue
 				}
-				mat.realise(ldir, wdir, plan[sel[mine[0]]].C)
+				// neighbours share the witness and mirror directories
+				partKey := func(j int) string {
+					c := plan[sel[j]].C
+					return c.Wkeys + "|" + c.Wcp + "|" + c.Mkeys + "|" + c.Mcp + "|" + c.Medge + "|" + c.Mpend
+				}
+				sort.SliceStable(mine, func(a, b int) bool { return partKey(mine[a]) < partKey(mine[b]) })
+				mat.realise(ldir, wdir, plan[sel[mine[0]]].C, &last)
 				srv, err := StartSkylight(bin, filepath.Join(base, fmt.Sprintf("run%d", combo)), "",
 					[]LogCfg{{ShortName: hShort, Prefix: "https://hlog.test/", Dir: ldir, Staging: ls}},
 					[]WitCfg{{Prefix: "https://hwitness.test/", Dir: wdir, Staging: ws}})
@@ -397,9 +423,12 @@ func TestHealth(t *testing.T) {
 					r.St.C, r.St.Ls, r.St.Ws = st.C, st.Ls, st.Ws
 					for attempt := 0; ; attempt++ {
 						t0 := time.Now()
-						mat.realise(ldir, wdir, st.C)
+						mat.realise(ldir, wdir, st.C, &last)
+						t1 := time.Now()
 						resp, err := rc.Do("GET", "health.test", "/health")
 						r.AgeMs = time.Since(t0).Milliseconds()
+						tRealise.Add(int64(t1.Sub(t0)))
+						tQuery.Add(int64(time.Since(t1)))
 						if err != nil {
 							r.Ev, r.Err = "HealthError", err.Error()
 							break
@@ -443,5 +472,6 @@ func TestHealth(t *testing.T) {
 	for _, e := range herrs {
 		t.Logf("HARNESS-ERROR %s", e)
 	}
-	t.Logf("HEALTH states=%d harnessErrors=%d", len(recs), len(herrs))
+	t.Logf("HEALTH states=%d harnessErrors=%d realise=%v query=%v (summed over workers)", len(recs), len(herrs),
+		time.Duration(tRealise.Load()), time.Duration(tQuery.Load()))
 }
